@@ -77,6 +77,7 @@ func pkgAllowDiv(p *ssa.Package) bool {
 // hand-written model function (Lemmas/GenNumModel.lean), whose specification is proved under C01
 var modelCalls = map[string]struct{ lean, partial string }{
 	"Int128.Div": {"GenNum.Int128_Div", "panics when the divisor is zero"},
+	"Int128.Mod": {"GenNum.Int128_Mod", "panics when the divisor is zero"},
 }
 
 const fixedPath = "github.com/richardwilkes/toolbox/xmath/fixed"
